@@ -169,12 +169,16 @@ fn download(peer: &Peer, first: &(Vec<u8>, SocketAddr), listener: SocketAddr, si
     let mut done = false;
     let mut copies: std::collections::BTreeMap<u64, u64> = Default::default();
     let mut strays = 0u64;
+    let mut final_n: Option<u64> = None;
     let deadline = Instant::now() + Duration::from_secs(20);
     loop {
         let dg = match pending.take() {
             Some(d) => Some(d),
             // after the final block the remaining copies (duplicate mode) follow within milliseconds; leave room for a loaded machine
-            None => peer.recv(if done { 150 } else { 1500 }).map(|x| x.0),
+            None => {
+                let all_copies_in = final_n.map(|n| copies.get(&n) == Some(&rep)).unwrap_or(false);
+                peer.recv(if !done { 1500 } else if all_copies_in { 60 } else { 400 }).map(|x| x.0)
+            }
         };
         let dg = match dg {
             Some(d) => d,
@@ -210,6 +214,7 @@ fn download(peer: &Peer, first: &(Vec<u8>, SocketAddr), listener: SocketAddr, si
             }
             if fin {
                 done = true;
+                final_n = Some(n);
                 if rep <= 1 {
                     break;
                 }
@@ -231,6 +236,7 @@ fn upload(peer: &Peer, first: &(Vec<u8>, SocketAddr), listener: SocketAddr, sing
     let nblk = content.len() / neg.blk + 1;
     let mut k = 1usize;
     let mut nacks = 0u64;
+    let mut retried = false;
     while k <= nblk {
         let hi = (k + neg.ws as usize - 1).min(nblk);
         for j in k..=hi {
@@ -238,6 +244,11 @@ fn upload(peer: &Peer, first: &(Vec<u8>, SocketAddr), listener: SocketAddr, sing
             let up = (j * neg.blk).min(content.len());
             let d = Packet::Data { block_num: (j % 65536) as u16, data: content[lo..up].to_vec() };
             let _ = peer.sock.send_to(&d.serialize().unwrap(), tid);
+            if (j - k) % 32 == 31 {
+                // a conformant client does not outrun the receiver's socket buffer (a burst of hundreds of small
+                // datagrams overflows it whatever their size): pace long windows
+                std::thread::sleep(Duration::from_millis(1));
+            }
         }
         // wait for the ACK of block hi
         let mut ok = false;
@@ -255,6 +266,13 @@ fn upload(peer: &Peer, first: &(Vec<u8>, SocketAddr), listener: SocketAddr, sing
                     return format!("ul=error:{}", hex(&dg));
                 }
             }
+        }
+        if !ok && single && k == 1 && !retried {
+            // single-port mode: a worker that could not create its file may still have been alive when the window
+            // arrived (the listener then queued it for the dying worker); by now it is gone, and the same window is
+            // answered by the listener.  A live worker would have acknowledged the first attempt.
+            retried = true;
+            continue;
         }
         if !ok {
             return format!("ul=noack:{}", hi);
@@ -290,7 +308,7 @@ fn settle(ms: u64) {
 pub fn run_srv(toks: &[&str], dir: &Path) -> String {
     let flags = toks[1];
     let dup: u8 = toks[2].parse().unwrap();
-    let root: PathBuf = dir.join("sb");
+    let root: PathBuf = fresh_sandbox(dir);
     build_tree(&root, toks[3]);
     let listener = start_server(&root, flags, dup);
     let single = flags.contains('s');
